@@ -1,5 +1,5 @@
 CONSTANTS
-  Kinds = {"field","txn","user","account","fnwi","infofork","ffo","resume","fileheader","nald","newsartlist","newscat15","trackerreg","time","handshake","preamble","int","filepath","newspath","serverrecord"}
+  Kinds = {"field","txn","user","account","fnwi","infofork","ffo","resume","fileheader","nald","newsartlist","newscat15","trackerreg","time","handshake","preamble","int","filepath","newspath","serverrecord","listing","flatfile","obfstr"}
   Bufs = {1,2,3,7,40000}
   Bufs2 = {}
   Modes = {0}
